@@ -5,17 +5,11 @@ import (
 	"strings"
 )
 
-// Ref is the reference model: plain bookkeeping of what the property statements talk
-// about (time of the last passed probe per node, recorded connection errors, time of the
-// latest fuse, the gradual policy's penalty counters). It never looks at Gaea's state except
-// for the node statuses it is told about through Commit.
-type Ref struct {
-	Cfg Cfg
-	Now int64
-
-	MasterUp, ReplicaUp bool
-	MLastPass           int64
-	RLastPass           int64
+// RepRef is the reference state of ONE replica. Every replica of a group has its own: the
+// statements talk about "a replica", "its latest fuse", "its recovery condition".
+type RepRef struct {
+	Up       bool
+	LastPass int64
 
 	Errs      []int64 // recorded connection errors (timestamps)
 	Fused     bool    // the breaker has fired at least once
@@ -31,8 +25,25 @@ type Ref struct {
 	LastRecovery int64
 }
 
+// Ref is the reference model: plain bookkeeping of what the property statements talk
+// about (time of the last passed probe per node, recorded connection errors, time of the
+// latest fuse, the gradual policy's penalty counters), kept independently per replica. It
+// never looks at Gaea's state except for the node statuses it is told through Commit.
+type Ref struct {
+	Cfg Cfg
+	Now int64
+
+	MasterUp  bool
+	MLastPass int64
+	Rep       []*RepRef
+}
+
 func NewRef(c Cfg) *Ref {
-	return &Ref{Cfg: c, Now: c.Start, MasterUp: true, ReplicaUp: true, MLastPass: c.Start, RLastPass: c.Start, N: 3, LastRecovery: c.Start}
+	r := &Ref{Cfg: c, Now: c.Start, MasterUp: true, MLastPass: c.Start}
+	for i := 0; i < c.NRep(); i++ {
+		r.Rep = append(r.Rep, &RepRef{Up: true, LastPass: c.Start, N: 3, LastRecovery: c.Start})
+	}
+	return r
 }
 
 func penalty(n int64) int64 {
@@ -43,32 +54,35 @@ func penalty(n int64) int64 {
 	return p
 }
 
+// RepExpect is what the statements allow for one replica after one event.
+type RepExpect struct {
+	MayUp, MayDown bool
+	Rule           string
+	Pass           bool // the replica passed its probe in this round
+	SyncBad        bool
+	GateOpen       bool // recovery policy allows Down->Up now (meaningful in replica rounds)
+	Fire           bool // the breaker must fire on this connection error
+	ElapsedOver    bool
+	N, Need        int64 // gradual counters expected after the event (checked against the real strategy)
+}
+
 // Expect is what the statements allow after one event.
 type Expect struct {
-	// allowed status values after the event
-	MasterMayUp, MasterMayDown   bool
-	ReplicaMayUp, ReplicaMayDown bool
-	// why (used in messages and witness features)
-	MasterRule, ReplicaRule string
-	// facts about the event
-	Round      string // "", "M", "R"
-	Pass       bool   // the probed node passed its probe in this round
-	SyncBad    bool
-	GateOpen   bool // recovery policy allows Down->Up now (meaningful for replica rounds)
-	Fire       bool // the breaker must fire on this client error
-	ElapsedOver bool
-	// gradual counters expected after the event (checked against the real strategy)
-	N, Need int64
+	MasterMayUp, MasterMayDown bool
+	MasterRule                 string
+	MasterPass                 bool
+	Round                      string // "", "M", "R"
+	Rep                        []RepExpect
 }
 
 func same(up bool) (mayUp, mayDown bool) { return up, !up }
 
-func (r *Ref) gateOpen() bool {
+func (r *Ref) gateOpen(p *RepRef) bool {
 	switch r.Cfg.Policy {
 	case "hard":
-		return !r.Fused || r.Now >= r.LastFuse+r.Cfg.Cooldown
+		return !p.Fused || r.Now >= p.LastFuse+r.Cfg.Cooldown
 	case "gradual":
-		return r.Need == 0
+		return p.Need == 0
 	}
 	return true
 }
@@ -76,54 +90,60 @@ func (r *Ref) gateOpen() bool {
 // Step advances the reference over a primitive event and returns the expectation. The
 // caller then reports the statuses the implementation really has through Commit.
 func (r *Ref) Step(e Event) Expect {
-	x := Expect{}
+	x := Expect{Rep: make([]RepExpect, len(r.Rep))}
 	x.MasterMayUp, x.MasterMayDown = same(r.MasterUp)
-	x.ReplicaMayUp, x.ReplicaMayDown = same(r.ReplicaUp)
-	x.MasterRule, x.ReplicaRule = "unchanged:no_probe_of_this_node", "unchanged:no_probe_of_this_node"
+	x.MasterRule = "unchanged:no_probe_of_this_node"
+	for i, p := range r.Rep {
+		x.Rep[i].MayUp, x.Rep[i].MayDown = same(p.Up)
+		x.Rep[i].Rule = "unchanged:no_probe_of_this_node"
+		x.Rep[i].GateOpen = r.gateOpen(p)
+	}
 	da := int64(r.Cfg.DownAfter)
 	switch e.K {
 	case "T":
 		r.Now += e.D
 	case "E", "L":
-		// E: a client read picked the replica through GetSlaveConn (only possible while it is
+		// E: a client read picked replica I through GetSlaveConn (only possible while it is
 		// up) and its pool answered with a connection error. L: a session that picked the
 		// replica earlier gets its connection error now, whatever the replica's status is.
-		// Both record a connection error; the breaker fires when the window reaches M.
-		if (e.K == "L" || r.ReplicaUp) && r.Cfg.Policy != "none" {
-			r.Errs = append(r.Errs, r.Now)
+		// Both record a connection error FOR THAT REPLICA ONLY; its breaker fires when its
+		// window reaches M.
+		p, xr := r.Rep[e.I], &x.Rep[e.I]
+		if (e.K == "L" || p.Up) && r.Cfg.Policy != "none" {
+			p.Errs = append(p.Errs, r.Now)
 			in := int64(0)
-			for _, t := range r.Errs {
+			for _, t := range p.Errs {
 				if t > r.Now-r.Cfg.W && t <= r.Now {
 					in++
 				}
 			}
 			if r.Cfg.W > 0 && r.Cfg.M > 0 && in >= r.Cfg.M {
-				x.Fire = true
-				wasUp := r.ReplicaUp
+				xr.Fire = true
+				wasUp := p.Up
 				// a fuse marks the replica down; on a replica that is already down it changes no status
-				x.ReplicaMayUp, x.ReplicaMayDown = false, true
-				x.ReplicaRule = "down:breaker_fired"
+				xr.MayUp, xr.MayDown = false, true
+				xr.Rule = "down:breaker_fired"
 				if !wasUp {
-					x.ReplicaRule = "unchanged:breaker_fired_on_down_replica"
+					xr.Rule = "unchanged:breaker_fired_on_down_replica"
 				}
-				r.FusedDown = true
+				p.FusedDown = true
 				switch r.Cfg.Policy {
 				case "hard":
 					// "the configured cool-down since its LATEST fuse": every fuse counts,
 					// also one that hits a replica that is already down
-					r.Fused, r.LastFuse = true, r.Now
+					p.Fused, p.LastFuse = true, r.Now
 				case "gradual":
 					// node_fuse.go documents UpdateFuseTime / the bad-recovery bookkeeping as
 					// "called when the node goes StatusUp -> StatusDown": a fuse on a replica that
 					// is already down is not a new failure after a recovery and changes nothing
-					r.Fused = true
+					p.Fused = true
 					if wasUp {
-						r.LastFuse = r.Now
-						if r.Now-r.LastRecovery <= 2*PingPeriod {
-							r.N++
-							r.Need = penalty(r.N)
+						p.LastFuse = r.Now
+						if r.Now-p.LastRecovery <= 2*PingPeriod {
+							p.N++
+							p.Need = penalty(p.N)
 						} else {
-							r.N = 3
+							p.N = 3
 						}
 					}
 				}
@@ -131,16 +151,15 @@ func (r *Ref) Step(e Event) Expect {
 		}
 	case "M":
 		x.Round = "M"
-		x.Pass = Passes(e.A)
-		if x.Pass {
+		x.MasterPass = Passes(e.A)
+		if x.MasterPass {
 			r.MLastPass = r.Now
 		}
 		switch {
 		case r.Now-r.MLastPass >= da:
-			x.ElapsedOver = true
 			x.MasterMayUp, x.MasterMayDown = false, true
 			x.MasterRule = "down:no_passed_probe_for_down_after"
-		case x.Pass:
+		case x.MasterPass:
 			x.MasterMayUp, x.MasterMayDown = true, false
 			x.MasterRule = "up:probe_passed"
 		default:
@@ -148,89 +167,115 @@ func (r *Ref) Step(e Event) Expect {
 		}
 	case "R":
 		x.Round = "R"
-		x.Pass = Passes(e.A)
-		x.SyncBad = r.Cfg.LagLimit != 0 && SyncBad(e.A)
-		if x.Pass {
-			r.RLastPass = r.Now
-		}
-		if r.Cfg.Policy == "gradual" && !x.Pass && !r.ReplicaUp {
-			r.Need = penalty(r.N) // a failed probe while down: the consecutive successes start over
-		}
-		x.GateOpen = r.gateOpen()
-		switch {
-		case r.Now-r.RLastPass >= da:
-			x.ElapsedOver = true
-			x.ReplicaMayUp, x.ReplicaMayDown = false, true
-			x.ReplicaRule = "down:no_passed_probe_for_down_after"
-		case !x.Pass:
-			x.ReplicaRule = "unchanged:probe_failed_within_down_after"
-		case !r.MasterUp:
-			// the statement does not say what replication health means while the master is
-			// down: a lagging/stopped replica may stay as it is or be marked down; a healthy
-			// down replica must come up when the gate is open
-			switch {
-			case r.ReplicaUp && x.SyncBad:
-				x.ReplicaMayUp, x.ReplicaMayDown = true, true
-				x.ReplicaRule = "any:master_down_sync_bad"
-			case r.ReplicaUp:
-				x.ReplicaRule = "unchanged:healthy_and_up"
-			case !x.GateOpen:
-				x.ReplicaRule = "unchanged:recovery_gate_closed"
-			case x.SyncBad:
-				x.ReplicaMayUp, x.ReplicaMayDown = true, true
-				x.ReplicaRule = "any:master_down_sync_bad"
-			default:
-				x.ReplicaMayUp, x.ReplicaMayDown = true, false
-				x.ReplicaRule = "up:probe_passed_gate_open_master_down"
-			}
-		case x.SyncBad:
-			x.ReplicaMayUp, x.ReplicaMayDown = false, true
-			x.ReplicaRule = "down:lag_or_thread_stopped"
-		case r.ReplicaUp:
-			x.ReplicaRule = "unchanged:healthy_and_up"
-		case x.GateOpen:
-			x.ReplicaMayUp, x.ReplicaMayDown = true, false
-			x.ReplicaRule = "up:probe_passed_gate_open"
-		default:
-			x.ReplicaRule = "unchanged:recovery_gate_closed"
-			if r.Cfg.Policy == "gradual" {
-				r.Need-- // one of the required consecutive successful probes is served
-			}
+		// the loop probes every replica of the group in this tick, each on its own
+		for i, p := range r.Rep {
+			r.replicaRound(p, &x.Rep[i], e.Out(i))
 		}
 	}
-	x.N, x.Need = r.N, r.Need
+	for i, p := range r.Rep {
+		x.Rep[i].N, x.Rep[i].Need = p.N, p.Need
+	}
 	return x
+}
+
+func (r *Ref) replicaRound(p *RepRef, x *RepExpect, out string) {
+	da := int64(r.Cfg.DownAfter)
+	x.Pass = Passes(out)
+	x.SyncBad = r.Cfg.LagLimit != 0 && SyncBad(out)
+	if x.Pass {
+		p.LastPass = r.Now
+	}
+	if r.Cfg.Policy == "gradual" && !x.Pass && !p.Up {
+		p.Need = penalty(p.N) // a failed probe while down: the consecutive successes start over
+	}
+	x.GateOpen = r.gateOpen(p)
+	switch {
+	case r.Now-p.LastPass >= da:
+		x.ElapsedOver = true
+		x.MayUp, x.MayDown = false, true
+		x.Rule = "down:no_passed_probe_for_down_after"
+	case !x.Pass:
+		x.Rule = "unchanged:probe_failed_within_down_after"
+	case !r.MasterUp:
+		// the statement does not say what replication health means while the master is
+		// down: a lagging/stopped replica may stay as it is or be marked down; a healthy
+		// down replica must come up when the gate is open
+		switch {
+		case p.Up && x.SyncBad:
+			x.MayUp, x.MayDown = true, true
+			x.Rule = "any:master_down_sync_bad"
+		case p.Up:
+			x.Rule = "unchanged:healthy_and_up"
+		case !x.GateOpen:
+			x.Rule = "unchanged:recovery_gate_closed"
+		case x.SyncBad:
+			x.MayUp, x.MayDown = true, true
+			x.Rule = "any:master_down_sync_bad"
+		default:
+			x.MayUp, x.MayDown = true, false
+			x.Rule = "up:probe_passed_gate_open_master_down"
+		}
+	case x.SyncBad:
+		x.MayUp, x.MayDown = false, true
+		x.Rule = "down:lag_or_thread_stopped"
+	case p.Up:
+		x.Rule = "unchanged:healthy_and_up"
+	case x.GateOpen:
+		x.MayUp, x.MayDown = true, false
+		x.Rule = "up:probe_passed_gate_open"
+	default:
+		x.Rule = "unchanged:recovery_gate_closed"
+		if r.Cfg.Policy == "gradual" {
+			p.Need-- // one of the required consecutive successful probes is served
+		}
+	}
 }
 
 // Commit tells the reference which statuses the implementation has after the event.
 func (r *Ref) Commit(after Status) {
-	if after.ReplicaUp && !r.ReplicaUp {
-		r.FusedDown = false
-		r.LastRecovery = r.Now
+	for i, p := range r.Rep {
+		if after.ReplicaUp[i] && !p.Up {
+			p.FusedDown = false
+			p.LastRecovery = r.Now
+		}
+		p.Up = after.ReplicaUp[i]
 	}
-	r.MasterUp, r.ReplicaUp = after.MasterUp, after.ReplicaUp
+	r.MasterUp = after.MasterUp
+}
+
+// AnyFusedOrPending: something recovery-related has happened (used for the non-triviality count).
+func (r *Ref) AnyFusedOrPending() bool {
+	for _, p := range r.Rep {
+		if p.Fused || p.Need > 0 {
+			return true
+		}
+	}
+	return false
 }
 
 // Key renders the reference state the future expectations depend on (same clamps as World.Key).
 func (r *Ref) Key() string {
 	var sb strings.Builder
 	da := int64(r.Cfg.DownAfter)
-	fmt.Fprintf(&sb, "M%v/%d R%v/%d F%v", r.MasterUp, clamp(r.Now-r.MLastPass, da), r.ReplicaUp, clamp(r.Now-r.RLastPass, da), r.FusedDown)
-	switch r.Cfg.Policy {
-	case "hard":
-		if r.Fused {
-			fmt.Fprintf(&sb, " H%d", clamp(r.Now-r.LastFuse, r.Cfg.Cooldown))
-		} else {
-			sb.WriteString(" H-")
+	fmt.Fprintf(&sb, "M%v/%d", r.MasterUp, clamp(r.Now-r.MLastPass, da))
+	for i, p := range r.Rep {
+		fmt.Fprintf(&sb, " R%d:%v/%d F%v", i, p.Up, clamp(r.Now-p.LastPass, da), p.FusedDown)
+		switch r.Cfg.Policy {
+		case "hard":
+			if p.Fused {
+				fmt.Fprintf(&sb, " H%d", clamp(r.Now-p.LastFuse, r.Cfg.Cooldown))
+			} else {
+				sb.WriteString(" H-")
+			}
+		case "gradual":
+			fmt.Fprintf(&sb, " G%d/%d/%d", p.N, p.Need, clamp(r.Now-p.LastRecovery, 2*PingPeriod+1))
 		}
-	case "gradual":
-		fmt.Fprintf(&sb, " G%d/%d/%d", r.N, r.Need, clamp(r.Now-r.LastRecovery, 2*PingPeriod+1))
-	}
-	if r.Cfg.Policy != "none" {
-		sb.WriteString(" E")
-		for _, t := range r.Errs {
-			if t > r.Now-r.Cfg.W {
-				fmt.Fprintf(&sb, "%d,", r.Now-t)
+		if r.Cfg.Policy != "none" {
+			sb.WriteString(" E")
+			for _, t := range p.Errs {
+				if t > r.Now-r.Cfg.W {
+					fmt.Fprintf(&sb, "%d,", r.Now-t)
+				}
 			}
 		}
 	}
